@@ -30,14 +30,16 @@ func safeAssignable(a, b px.Type) (r bool) {
 // the int64<->float64 conversions of the platform.
 
 type emitter struct {
-	cfg     *lib.Config
-	files   []*lib.CasesFile
-	radix   *lib.CasesFile
-	rpad    *lib.CasesFile
-	share   []*lib.CasesFile // values with aliasing: lvalue terms, format_value_g
-	nShare  int
-	failing int
-	perFile int
+	cfg      *lib.Config
+	files    []*lib.CasesFile
+	radix    *lib.CasesFile
+	rpad     *lib.CasesFile
+	share    []*lib.CasesFile // values with aliasing: lvalue terms, format_value_g
+	nShare   int
+	sprintf  []*lib.CasesFile // PuppetSprintf / PuppetFprintf calls: sprintf_model
+	nSprintf int
+	failing  int
+	perFile  int
 }
 
 func newCases() *lib.CasesFile {
@@ -394,6 +396,9 @@ func (e *emitter) flush(res *lib.Result) {
 	}
 	for i, cf := range e.share {
 		res.CorrFiles = append(res.CorrFiles, cf.WriteTo(e.cfg.Out, fmt.Sprintf("cases_share_%d", i)))
+	}
+	for i, cf := range e.sprintf {
+		res.CorrFiles = append(res.CorrFiles, cf.WriteTo(e.cfg.Out, fmt.Sprintf("cases_sprintf_%d", i)))
 	}
 }
 
